@@ -278,81 +278,89 @@ def feedUntilEof (w : World c) (chunk : Bytes) : World c :=
 def stripLaxCR (lax : Bool) (chunk : Bytes) : Bytes :=
   if lax then (match chunk with | 13 :: t => t | x => x) else chunk
 
+/-- `PARSE_TRAILERS` part of one loop iteration; `k` = the rest of the `while` loop -/
+def trailersStep (k : World c → Bytes → World c) (w : World c) (chunk : Bytes) : World c :=
+  match findSep w.lax chunk with
+  | none =>
+    if chunk.any (· == 10) then failWith w .transferEncoding
+    else { w with tail := chunk, res := .needs }
+  | some pos =>
+    let line := chunk.take pos
+    let chunk := chunk.drop (pos + sepLen w.lax)
+    let line := if w.lax then rstrip (· == 13) line else line
+    if line.length > w.maxField then failWith w .lineTooLong else
+    let tl := w.trailerLines ++ [line]
+    if tl.length > w.maxTrailers then failWith w .badMessage else
+    if line.isEmpty then
+      match parseHeaders w.lax w.maxField tl with
+      | .error e =>
+        failWith { w with trailerLines := [] }
+          (if e == .invalidHeader then .invalidHeader else if e == .lineTooLong then .lineTooLong else .badMessage)
+      | .ok _ =>
+        let w := payEof { w with trailerLines := [] }
+        if w.raised.isSome then { w with res := .failed }
+        else { w with res := .complete, tail := chunk }   -- `tail` here = bytes after the message
+    else k { w with trailerLines := tl } chunk
+
+/-- `PARSE_CHUNKED_CHUNK_EOF` part of one loop iteration -/
+def chunkEofStep (k : World c → Bytes → World c) (w : World c) (chunk : Bytes) : World c :=
+  let unstripped := chunk
+  let chunk := stripLaxCR w.lax chunk
+  let n := sepLen w.lax
+  let sep : Bytes := if w.lax then [10] else [13, 10]
+  if chunk.take n == sep then k { w with cstate := .size } (chunk.drop n)
+  else if chunk.length ≥ n || chunk != sep.take chunk.length then failWith w .transferEncoding
+  else { w with tail := unstripped, res := .needs }
+
+/-- `PARSE_CHUNKED_CHUNK` part of one loop iteration -/
+def chunkStep (k : World c → Bytes → World c) (w : World c) (chunk : Bytes) : World c :=
+  if w.paused then { w with paused := false, tail := chunk, res := .pending } else
+  let required := w.chunkSize
+  let w := payFeed { w with chunkSize := required - chunk.length } (chunk.take required)
+  if w.raised.isSome then { w with res := .failed } else
+  let chunk := chunk.drop required
+  if w.more then k w chunk
+  else if w.chunkSize != 0 then { w with paused := false, res := .needs }
+  else
+    let w := endChunk { w with cstate := .chunkEof }
+    if w.raised.isSome then { w with res := .failed } else chunkEofStep k w chunk
+
+/-- `PARSE_CHUNKED_SIZE` part of one loop iteration -/
+def sizeStep (k : World c → Bytes → World c) (w : World c) (chunk : Bytes) : World c :=
+  match findSep w.lax chunk with
+  | some pos =>
+    if pos > w.maxLine then failWith w .lineTooLong else
+    let line := chunk.take pos
+    let (sizeB, extBad) :=
+      match findByte 59 line with
+      | some i => (line.take i, (line.drop i).any (· == 10))
+      | none => (line, false)
+    if extBad then failWith w .transferEncoding else
+    let sizeB := if w.lax then strip isBytesWs sizeB else sizeB
+    if sizeB.isEmpty || !sizeB.all isHexB then failWith w .transferEncoding else
+    match ofHex sizeB with
+    | none => failWith w .transferEncoding
+    | some size =>
+      let chunk := chunk.drop (pos + sepLen w.lax)
+      if size == 0 then
+        trailersStep k { w with cstate := .trailers } (stripLaxCR w.lax chunk)
+      else
+        let w := beginChunk { w with cstate := .chunk, chunkSize := size }
+        if w.raised.isSome then { w with res := .failed } else chunkStep k w chunk
+  | none =>
+    if chunk.any (· == 10) then failWith w .transferEncoding
+    else { w with tail := chunk, res := .needs }
+
 /-- the `while chunk or self._more_data_available:` loop of the `PARSE_CHUNKED` branch -/
 def chunkedLoop : Nat → World c → Bytes → World c
   | 0, w, _ => failWith w .stall
   | fuel + 1, w, chunk =>
     if chunk.isEmpty && !w.more then { w with res := .needs } else
     match w.cstate with
-    | .size =>
-      match findSep w.lax chunk with
-      | some pos =>
-        if pos > w.maxLine then failWith w .lineTooLong else
-        let line := chunk.take pos
-        let (sizeB, extBad) :=
-          match findByte 59 line with
-          | some i => (line.take i, (line.drop i).any (· == 10))
-          | none => (line, false)
-        if extBad then failWith w .transferEncoding else
-        let sizeB := if w.lax then strip isBytesWs sizeB else sizeB
-        if sizeB.isEmpty || !sizeB.all isHexB then failWith w .transferEncoding else
-        match ofHex sizeB with
-        | none => failWith w .transferEncoding
-        | some size =>
-          let chunk := chunk.drop (pos + sepLen w.lax)
-          if size == 0 then
-            trailersStep fuel { w with cstate := .trailers } (stripLaxCR w.lax chunk)
-          else
-            let w := beginChunk { w with cstate := .chunk, chunkSize := size }
-            if w.raised.isSome then { w with res := .failed } else chunkStep fuel w chunk
-      | none =>
-        if chunk.any (· == 10) then failWith w .transferEncoding
-        else { w with tail := chunk, res := .needs }
-    | .chunk => chunkStep fuel w chunk
-    | .chunkEof => chunkEofStep fuel w chunk
-    | .trailers => trailersStep fuel w chunk
-where
-  chunkStep (fuel : Nat) (w : World c) (chunk : Bytes) : World c :=
-    if w.paused then { w with paused := false, tail := chunk, res := .pending } else
-    let required := w.chunkSize
-    let w := payFeed { w with chunkSize := required - chunk.length } (chunk.take required)
-    if w.raised.isSome then { w with res := .failed } else
-    let chunk := chunk.drop required
-    if w.more then chunkedLoop fuel w chunk
-    else if w.chunkSize != 0 then { w with paused := false, res := .needs }
-    else
-      let w := endChunk { w with cstate := .chunkEof }
-      if w.raised.isSome then { w with res := .failed } else chunkEofStep fuel w chunk
-  chunkEofStep (fuel : Nat) (w : World c) (chunk : Bytes) : World c :=
-    let unstripped := chunk
-    let chunk := stripLaxCR w.lax chunk
-    let n := sepLen w.lax
-    let sep : Bytes := if w.lax then [10] else [13, 10]
-    if chunk.take n == sep then chunkedLoop fuel { w with cstate := .size } (chunk.drop n)
-    else if chunk.length ≥ n || chunk != sep.take chunk.length then failWith w .transferEncoding
-    else { w with tail := unstripped, res := .needs }
-  trailersStep (fuel : Nat) (w : World c) (chunk : Bytes) : World c :=
-    match findSep w.lax chunk with
-    | none =>
-      if chunk.any (· == 10) then failWith w .transferEncoding
-      else { w with tail := chunk, res := .needs }
-    | some pos =>
-      let line := chunk.take pos
-      let chunk := chunk.drop (pos + sepLen w.lax)
-      let line := if w.lax then rstrip (· == 13) line else line
-      if line.length > w.maxField then failWith w .lineTooLong else
-      let tl := w.trailerLines ++ [line]
-      if tl.length > w.maxTrailers then failWith w .badMessage else
-      if line.isEmpty then
-        match parseHeaders w.lax w.maxField tl with
-        | .error e =>
-          failWith { w with trailerLines := [] }
-            (if e == .invalidHeader then .invalidHeader else if e == .lineTooLong then .lineTooLong else .badMessage)
-        | .ok _ =>
-          let w := payEof { w with trailerLines := [] }
-          if w.raised.isSome then { w with res := .failed }
-          else { w with res := .complete, tail := chunk }   -- `tail` here = bytes after the message
-      else chunkedLoop fuel { w with trailerLines := tl } chunk
+    | .size => sizeStep (chunkedLoop fuel) w chunk
+    | .chunk => chunkStep (chunkedLoop fuel) w chunk
+    | .chunkEof => chunkEofStep (chunkedLoop fuel) w chunk
+    | .trailers => trailersStep (chunkedLoop fuel) w chunk
 
 /-- the early length check on a buffered partial line (chunked) -/
 def tailTooLong (w : World c) : Bool :=
@@ -435,7 +443,7 @@ inductive Out
   | none | skipped | blocked
   | data (bs : Bytes)
   | err (e : Err)
-deriving Repr
+deriving Repr, DecidableEq
 
 /-- `await payload.read(n)` (`some n`, n > 0) / `await payload.readany()` (`none`), one
 non-blocking attempt: `blocked` = the coroutine parks in `_wait` -/
@@ -559,14 +567,16 @@ def Codec.ident : Codec where
 def expandByte (b : UInt8) : Bytes := List.replicate b.toNat b
 def expandAll (i : Bytes) : Bytes := i.flatMap expandByte
 
-def Codec.expand : Codec where
+def expandStep (pend i : Bytes) (m : Nat) : Option (Bytes × Bytes) :=
+  if i.any (· == 0) then none else
+  let all := pend ++ expandAll i
+  if m == 0 then some ([], all) else some (all.drop m, all.take m)
+
+@[reducible] def Codec.expand : Codec where
   St := Bytes
   init := []
   toRaw := fun _ => []
-  step := fun pend i m =>
-    if i.any (· == 0) then none else
-    let all := pend ++ expandAll i
-    if m == 0 then some ([], all) else some (all.drop m, all.take m)
+  step := expandStep
   avail := fun pend => !pend.isEmpty
   atEof := fun pend => pend.isEmpty
 
